@@ -43,6 +43,8 @@ var vC10Bodies = []string{
 	"Description\n  some text\n",
 	"404 any\n405 @x\nTYPE @x any\n",
 	"Headers\n{\"h\": 1}\n",
+	"GET /c/{id}\n  200 any\n",
+	"URL /d/{name}\n  GET\n    200 any\n  DELETE /e/{x}/{y}\n    204 empty\n",
 }
 
 var vC10Followers = []string{"", "Tags @t\n", "Description\n  d2\n", "500 any\n"}
@@ -81,14 +83,17 @@ func HPasteText() {
 	if vBool("folOuter") && folIndent >= 2 {
 		folIndent -= 2
 	}
-	defFirst := vBool("defFirst")
+	defPos := vInt("defPos", 0, 2) // the MACRO definition: before JSIGHT / right after it / at the end
 
 	docA := site.before + vIndent(body, site.indent) + vIndent(fol, folIndent) + site.after
 	macro := "MACRO @m\n(\n" + vIndent(body, 2) + ")\n"
 	docB := site.before + vIndent("PASTE @m\n", site.indent) + vIndent(fol, folIndent) + site.after
-	if defFirst {
+	switch defPos {
+	case 0:
+		docB = macro + docB
+	case 1:
 		docB = strings.Replace(docB, "JSIGHT 0.3\n", "JSIGHT 0.3\n"+macro, 1)
-	} else {
+	default:
 		docB += macro
 	}
 	cA, jeA := vBuildText(docA)
